@@ -130,7 +130,7 @@ fn check(ast: &Ast, vars: &[(&'static str, RV)], ci: usize, st: &mut Stats) {
         st.count("unclaimed-programs");
     }
 
-    // (2) the mutable form on a clone; direct differential for assignment-free programs
+    // (2) the mutable form on a clone; direct differential for assignment-free programs (untyped, the 7 typed tree-level views and the 7 typed string-level functions)
     log.lock().unwrap().clear();
     let mut c2 = c.clone();
     let mt = match guarded(|| tree.eval_with_context_mut(&mut c2)) {
@@ -195,6 +195,34 @@ fn check(ast: &Ast, vars: &[(&'static str, RV)], ci: usize, st: &mut Stats) {
         typed_pair!("boolean", eval_boolean_with_context, eval_boolean_with_context_mut);
         typed_pair!("tuple", eval_tuple_with_context, eval_tuple_with_context_mut);
         typed_pair!("empty", eval_empty_with_context, eval_empty_with_context_mut);
+        // and the string-level functions of the same names
+        macro_rules! typed_pair_str {
+            ($name:literal, $shared:ident, $mutable:ident) => {{
+                let a = guarded(|| evalexpr::$shared(&src, &c)).map(|r| format!("{:?}", r));
+                let mut cm = c.clone();
+                let b = guarded(|| evalexpr::$mutable(&src, &mut cm)).map(|r| format!("{:?}", r));
+                st.evaluations += 2;
+                match (a, b) {
+                    (Ok(a), Ok(b)) => {
+                        if a != b {
+                            st.violation(mk(concat!("typed-view-differs/string-level-", $name), format!("{} (mutable form on a clone)", b), format!("{} (shared form)", a)));
+                            return;
+                        }
+                    },
+                    (Err(p), _) | (_, Err(p)) => {
+                        st.violation(mk("panic", "Ok or Err".into(), format!("panic at {}: {}", p.location, p.message)));
+                        return;
+                    },
+                }
+            }};
+        }
+        typed_pair_str!("string", eval_string_with_context, eval_string_with_context_mut);
+        typed_pair_str!("float", eval_float_with_context, eval_float_with_context_mut);
+        typed_pair_str!("int", eval_int_with_context, eval_int_with_context_mut);
+        typed_pair_str!("number", eval_number_with_context, eval_number_with_context_mut);
+        typed_pair_str!("boolean", eval_boolean_with_context, eval_boolean_with_context_mut);
+        typed_pair_str!("tuple", eval_tuple_with_context, eval_tuple_with_context_mut);
+        typed_pair_str!("empty", eval_empty_with_context, eval_empty_with_context_mut);
         st.count("typed-views-compared");
     }
 
